@@ -196,9 +196,12 @@ PROPS["C16"] = dict(
     level="other",
     explanation="Filter.encrypt, Filter.hmacSha256, Rotate, the rotation-payload branch of Process, NewEventWrapper, NewDerivedReader and derivedKeyId executed symbolically with every cryptographic leaf (aead.Wrapper Encrypt/KeyBytes/KeyId, hkdf.New, io.ReadFull of the derived reader, hmac, ed25519.GenerateKey, proto.Marshal, base64) an uninterpreted deterministic function of its inputs: the output must be exactly enc / HMAC under the wrapper, salt and info in force (per-event values first), Rotate / rotation payloads install the new material (copied, not aliased) and the next value uses it; the per-event wrapper is a function of (filter wrapper key, event id) only.",
     jobs=[dict(dir=ENC_DIR, harness=ENC_H, entries=r"^H_C16_(encrypt|hmac|rotate|event_wrapper|event_id_across_rotation)$", params=dict(quick={}, thorough={}), shards=dict(quick=4, thorough=8)),
+          # values protected through the payload walkers (struct fields, map entries, pointer tags) are the right function of the
+          # original bytes as well: the C09 shape harnesses assert "exactly enc / HMAC of the original under the material in force"
+          dict(dir=ENC_DIR, harness=ENC_H + ["encrypt/c09.go"], entries=r"^H_C09_(struct|toplevel)$", params=dict(quick={}, thorough={}), shards=dict(quick=8, thorough=16)),
           dict(dir=ENC_DIR, harness=ENC_H, entries=r"^H_C16_history_vs_model$", params=dict(quick=dict(H=3), thorough=dict(H=4)), shards=dict(quick=16, thorough=16), maxpaths=400000),
           dict(dir=ENC_DIR, harness=ENC_H, entries=r"^H_C16_process_vs_rotate$", params=dict(quick={}, thorough={}), shards=dict(quick=4, thorough=8), maxswitches=dict(quick=3, thorough=5), instrument_locks=True)],
-    must_reach=["C16.encrypt.ok", "C16.encrypt.rejected", "C16.hmac.ok", "C16.hmac.rejected", "C16.rotate.end", "C16.eventwrapper.ok", "C16.eventwrapper.rejected", "C16.rotation.end", "C16.eventid.end", "C16.history.end"],
+    must_reach=["C16.encrypt.ok", "C16.encrypt.rejected", "C16.hmac.ok", "C16.hmac.rejected", "C16.rotate.end", "C16.eventwrapper.ok", "C16.eventwrapper.rejected", "C16.rotation.end", "C16.eventid.end", "C16.history.end", "C09.struct.ok", "C09.toplevel.ok"],
     bounds=dict(quick="salt/info nil or 0..2 arbitrary bytes; data any string; histories of 3 operations (event, event with id, Rotate / rotation payload with any subset of wrapper, salt, info)", thorough="same; histories of 4 operations"),
     assumptions=["AES-GCM decrypts to the plaintext, HKDF and HMAC-SHA256 compute the standard functions, ed25519 key derivation: trusted primitives (uninterpreted)", "concurrent rotation: see the lockset/interleaving jobs"],
     trusted_base=COMMON_TRUST + ["engine/symex/cryptomodel.go contracts"],
